@@ -207,7 +207,7 @@ var implied = map[string]bool{"system:authenticated": true, "system:unauthentica
 
 func TestPropIdentityPropagation(t *testing.T) {
 	sub := stats.NewSub("identity-propagation", "rapid: authenticated identity (name, 0-4 groups, 0-3 extra keys x 1-2 values with %, /, blanks, UTF-8, upper case), client header set (Authorization valid / second value / other scheme / unknown token / none; Impersonate-User 0-2 values incl. empty first value and service-account form; Impersonate-Group 0-3; Impersonate-Extra-<key> escaped or raw; other Impersonate-* names) written in lower / upper / mixed case on a real HTTP/1.1 connection, and a deny set for the authorizer; oracle: reference impersonation semantics decide 401 / >=400 malformed / 403 / forwarded, and for forwarded requests the identity the stub upstream decodes == the effective identity, Authorization == exactly the gateway credential, no Impersonate-* header other than those generated from the effective identity; non-trivial = the client sent an identity-bearing header other than one valid Authorization, or the identity has extras / non-alphanumeric bytes; distinct by FNV-64 of (identity, headers, deny set)")
-	stats.Check(t, stats.N(2500, 40000), func(t *rapid.T) {
+	stats.Check(t, stats.N(8000, 60000), func(t *rapid.T) {
 		id := genIdentity(t)
 		cr := genClientHeaders(t)
 		denyMode := rapid.IntRange(0, 3).Draw(t, "denyMode")
